@@ -17,11 +17,14 @@
       [(size - header) / entry_size] before [Vec::with_capacity(count)], so its requests are at
       most [size] (twice [size] where the in-memory entry is larger than the wire entry), and the
       containers compare [size] with the parent's size, hence with the file length.
-    - three codec-configuration fields are NOT compared with the box size before the allocation:
-      the NAL-unit length of avcC (u16: one request of at most 65 535 bytes), [num_of_arrays] of
-      hvcC (u8: 255 * 32 bytes) and [num_nalus] of an hvcC array (u16: 65 535 * 32 bytes = 2 MiB
-      in one request, from a box of a few dozen bytes).  These are bounded by the constants the
-      field widths allow ([avcc_cost], [hvcc_cost]); they are what makes [open_Bl] large. *)
+    - two codec-configuration fields are NOT compared with the box size before the allocation:
+      the NAL-unit length of avcC (u16: one request of at most 65 535 bytes) and [num_of_arrays] of
+      hvcC (u8: 255 * 32 bytes).  [num_nalus] of an hvcC array (u16, 32 bytes of bookkeeping per
+      unit) IS compared since the fix "check the hvcC nal unit count against the box before
+      allocating": [2 * num_nalus <= end - position], so that request is at most 16 times the
+      bytes left in the box (example [C08_hvcc_count_rejected]; it used to be 2 MiB from a box of
+      34 bytes).  The state-independent bounds [avcc_cost], [hvcc_cost] below are still the crude
+      constants of the field widths; they are what makes [open_Bl] large. *)
 From MP4 Require Import Cost Reader CostLeaf CostLeaf2 CostLeaf3 CostOpen CostSample CostProps.
 From MP4 Require Import BoxStts BoxCtts BoxStsc BoxStsz BoxStss BoxStco BoxCo64 BoxElst BoxTrun
      BoxHdlr BoxAvc1 BoxHev1.
@@ -101,15 +104,27 @@ Example C08_read_sample_test_file :
   end.
 Proof. vm_compute. split; reflexivity. Qed.
 
-(** the codec constants are attained: a 34-byte hvcC box whose single array announces 65 535 NAL
-    units makes [Vec::with_capacity] request 2 097 120 bytes (then the read fails); a 16-byte avcC box
-    with one SPS of announced length 65 535 requests 65 535 bytes.  Both are within [open_Bl]. *)
-Example C08_hvcc_overallocation :
+(** regression (fix "check the hvcC nal unit count against the box before allocating"): a 34-byte
+    hvcC box whose single array announces 65 535 NAL units used to make [Vec::with_capacity]
+    request 2 097 120 bytes before the first read failed.  The count is now compared with the bytes
+    left in the box (2 bytes per NAL unit at least): the box is rejected as invalid data and the
+    only request is the 32 bytes of the one-element [arrays] vector; nothing is requested for the
+    NAL units. *)
+Example C08_hvcc_count_rejected :
   let data := be 4 34 ++ be 4 0x68766343 ++ repeatN 0 22 ++ [1] ++ [0] ++ [255; 255] in
   let '(r, _, mt) := runm (h <- read_header ;; dec_hvcc Dbg (snd h)) (stream_at data 0) (meter0 None) in
-  lenN data = 34 /\ r = Err EIo /\ m_alloc_max mt = 2097120 /\ m_alloc_sum mt = 2097152.
+  lenN data = 34 /\ r = Err EData /\ m_alloc_max mt = 32 /\ m_alloc_sum mt = 32.
 Proof. vm_compute. repeat split; reflexivity. Qed.
 
+(** the count that exactly fits is accepted: 3 NAL units of length 0 in the 6 bytes left *)
+Example C08_hvcc_count_fits :
+  let data := be 4 40 ++ be 4 0x68766343 ++ repeatN 0 22 ++ [1] ++ [0] ++ [0; 3] ++ repeatN 0 6 in
+  let '(r, _, mt) := runm (h <- read_header ;; dec_hvcc Dbg (snd h)) (stream_at data 0) (meter0 None) in
+  lenN data = 40 /\ is_ok r = true /\ m_alloc_max mt = 96 /\ m_alloc_sum mt = 128.
+Proof. vm_compute. repeat split; reflexivity. Qed.
+
+(** the avcC constant is attained: a 16-byte avcC box with one SPS of announced length 65 535
+    requests 65 535 bytes (then the read fails).  It is within [open_Bl]. *)
 Example C08_avcc_overallocation :
   let data := be 4 16 ++ be 4 0x61766343 ++ [1; 100; 0; 31; 255; 225] ++ [255; 255] in
   let '(r, _, mt) := runm (h <- read_header ;; dec_avcc Dbg (snd h)) (stream_at data 0) (meter0 None) in
